@@ -28,7 +28,7 @@ ASSUMPTIONS = [
     "don't-care pairs (bool against float/complex, Any, Literal containing 1 vs True/1.0, str against Sequence) give no verdict",
     "with the switch off, non-node values in child fields are outside the statement (the digest needs child nodes); property fields accept any value",
 ]
-MUST_SEE = ["mixin_inherited_fields", "failed_operations_with_checks_on", "same_annotation_text_other_type", "false_vs_bool", "bool_vs_int", "bool_vs_int_union", "bool_in_int_tuple", "fixed_tuple_too_long", "fixed_tuple_too_short", "multi_two_bad", "noninit_bad_default", "switch_off_same_node", "nonconforming", "conforming", "noncompare_fields_checked", "ill_typed_value_equal_to_default", "parent_used_before_subclass"]
+MUST_SEE = ["ill_typed_origin", "mixin_inherited_fields", "failed_operations_with_checks_on", "same_annotation_text_other_type", "false_vs_bool", "bool_vs_int", "bool_vs_int_union", "bool_in_int_tuple", "fixed_tuple_too_long", "fixed_tuple_too_short", "multi_two_bad", "noninit_bad_default", "switch_off_same_node", "nonconforming", "conforming", "noncompare_fields_checked", "ill_typed_value_equal_to_default", "parent_used_before_subclass"]
 CONFIG = {
     "quick": {"shards": 16, "d2_sample": 150, "multi": 300, "watchdog_s": 600},
     "thorough": {"shards": 32, "d2_sample": 400, "multi": 600, "watchdog_s": 3400},
@@ -211,6 +211,24 @@ def run_shard(ctx):
                 r[1].detach()
             if got != exp:
                 ctx.violation("nonconforming-accepted" if exp and r[0] == "ok" else "invalid-fields-wrong", f"{cn[len(P):]}: fields inherited from a plain dataclass mixin: invalid fields {got}, expected {exp}", {"class": cn[len(P):], "source": src.replace(P, ""), "values": {k_: vrepr(v) for k_, v in kw.items()}})
+    # ------------------------------------------------------------ the built-in origin field is type checked like any other
+    from pyoak.origin import NO_ORIGIN, MemoryTextSource
+
+    for kw, exp in (
+        (dict(count=1, origin="x"), ["origin"]),
+        (dict(count=1, origin=None), ["origin"]),
+        (dict(count=1, origin=MemoryTextSource("t", source_uri=f"c13://{P}")), ["origin"]),
+        (dict(count="1", origin=5), ["count", "origin"]),
+        (dict(count=1, origin=NO_ORIGIN), []),
+    ):
+        ctx.evaluations += 1
+        ctx.count("ill_typed_origin")
+        r = construct(IVLeaf, kw, True)
+        got = [] if r[0] == "ok" else r[1]
+        if r[0] == "ok":
+            r[1].detach()
+        if got != exp:
+            ctx.violation("nonconforming-accepted" if r[0] == "ok" else "invalid-fields-wrong", f"origin given as {type(kw['origin']).__name__}: invalid fields {got}, expected {exp}", {"values": {k_: vrepr(v) for k_, v in kw.items()}})
     # ------------------------------------------------------------ single-field classes
     for k, a in enumerate(mine):
         ctx.case = ("single", k)
